@@ -128,10 +128,10 @@ def rect_oracle(query, real):
         return tuple(map(int, t[:4])) != (ax - dx, ay - dy, aw, ah)
     return None
 
-def pure_check(prop, group, prop_files, tier, seed, t0, assumptions, unique=True, release_too=False, extra_groups=()):
+def pure_check(prop, group, prop_files, tier, seed, t0, assumptions, unique=True, release_too=False, extra_groups=(), extra_viol=()):
     import pure
     proof = proof_status(prop_files, clean=(tier == 'thorough'))
-    viol = []
+    viol = list(extra_viol)
     cov = dict(evaluations=0, queries=0, correspondence_mismatches=0, input_distribution={}, samples=[], harness_or_model_errors=[])
     try:
         builds = pure.build(False)
@@ -181,3 +181,76 @@ def check_C16(tier, seed, t0):
     return pure_check('C16', 'rect', ['Properties/C16.v'], tier, seed, t0,
                       ["theorems are about Pure/Rect.v (transcription of src/rect.rs, u32 overflow = None); tie = pure correspondence (exhaustive 0..12 sweeps + boundary/random u32 rectangles)",
                        "debug-build overflow semantics (overflow panics); the property's precondition excludes overflow"])
+
+def color_table_oracle():
+    """C14 clauses evaluated directly on the REAL crate's finite conversion tables -> violations"""
+    import pure, subprocess
+    hexe, err = corr.build_harness('v3')
+    if not hexe:
+        return [], 0
+    qp = os.path.join(vlib.WORK, 'c14-table.q')
+    os.makedirs(vlib.WORK, exist_ok=True)
+    open(qp, 'w').write('color_table\n')
+    out = subprocess.run([hexe, 'pure', qp], stdout=subprocess.PIPE, stderr=subprocess.PIPE, text=True, env=corr.ENV).stdout
+    T = {}
+    for l in out.split('\n'):
+        if l.startswith('T ') and ' = ' in l:
+            k, v = l[2:].split(' = ', 1)
+            T[k] = v
+    viol = []
+    def bad(clause, cls, detail, key):
+        viol.append(dict(panel='pure', site='color_table', clause=clause, detail=detail, **{'class': cls},
+                         replay=dict(kind='pure', group='color', query='color_table', line='T %s = %s' % (key, T.get(key)))))
+    for k, v in T.items():
+        t = k.split()
+        if t[0] == 'color.raw_u1_roundtrip' and v != t[1]:
+            bad('raw_u1_roundtrip', t[1], "Color::from(RawU1::from(%s)) = %s" % (t[1], v), k)
+        elif t[0] == 'oct.from_raw_u4' and v == 'PANIC' and int(t[1]) < 16:
+            bad('raw_u4_panic', 'v>=8', "OctColor::from(RawU4::new(%s)) panics" % t[1], k)
+        elif v == 'PANIC' and not (t[0] == 'color.from_u8' and int(t[1]) >= 2) and t[0] != 'oct.from_raw_u4':
+            bad('conversion_panics', t[0], "%s panics" % k, k)
+        elif t[0].endswith('_roundtrip') and t[0] != 'color.raw_u1_roundtrip' and v != t[-1]:
+            bad('roundtrip:' + t[0], t[-1], "%s = %s" % (k, v), k)
+        elif t[0] == 'bitmask' and t[1] == 'tri' and int(t[4]) < 8:
+            mask, bits = map(int, v.split())
+            bit = 0x80 >> (int(t[4]) % 8)
+            fill = int(T.get('tri.get_byte_value ' + t[2], '0'))
+            if (255 - mask) != bit:
+                bad('mask_selects_other_bits', 'tri', "%s = %s" % (k, v), k)
+            elif ((bits & 0xff) & bit) != (fill & bit):
+                bad('tri_mask_fill_disagree', 'chromatic bwrbit=' + t[3], "bitmask(%s,bwrbit=%s,pos=%s) B/W bit %d but get_byte_value fill %d" % (
+                    t[2], t[3], t[4], 1 if bits & bit else 0, 1 if fill & bit else 0), k)
+        elif t[0] == 'bitmask' and t[1] == 'color' and int(t[4]) < 8:
+            mask, bits = map(int, v.split())
+            bit = 0x80 >> (int(t[4]) % 8)
+            fill = int(T.get('color.get_byte_value ' + t[2], '0'))
+            if (255 - mask) != bit or (bits & bit) != (fill & bit) or (bits & ~bit & 0xffff):
+                bad('color_mask_fill_disagree', t[2], "%s = %s" % (k, v), k)
+    for c in ('black', 'white', 'green', 'blue', 'red', 'yellow', 'orange', 'hiz'):
+        nib = T.get('oct.get_nibble ' + c)
+        if nib is not None and T.get('oct.from_nibble ' + nib) != c:
+            bad('nibble_roundtrip', c, "from_nibble(get_nibble(%s)) = %s" % (c, T.get('oct.from_nibble ' + nib)), 'oct.get_nibble ' + c)
+    for c in ('black', 'white'):
+        bit = T.get('color.get_bit_value ' + c)
+        if bit is not None and T.get('color.from_u8 ' + bit) != c:
+            bad('bit_roundtrip', c, "from_u8(get_bit_value(%s)) = %s" % (c, T.get('color.from_u8 ' + bit)), 'color.get_bit_value ' + c)
+    return viol, len(T)
+
+def check_C03(tier, seed, t0):
+    return pure_check('C03', 'graphics', ['Properties/C03.v'], tier, seed, t0,
+                      ["theorems are about Pure/Graphics.v set_pixel (transcription of src/graphics.rs) for ALL widths/heights <= i32::MAX, all i32 points, rotations, colour types, colours, bwrbit and buffer contents; tie = pure correspondence (exhaustive per alias row sweeps, VarDisplay geometries, i32 extremes; debug and release builds)",
+                       "Display<..> aliases are instantiated through Pure/Aliases.v, itself compared with the crate's alias constants by the sizing group"],
+                      release_too=(tier == 'thorough'))
+
+def check_C13(tier, seed, t0):
+    return pure_check('C13', 'sizing', ['Properties/C13.v'], tier, seed, t0,
+                      ["theorems are about Pure/Graphics.v buffer_len / buffer_size / var_new_ok and Pure/Aliases.v; tie = pure correspondence (alias constants, VarDisplay::new sweeps 0..64 x slice lengths, buffer_len 0..2048^2)",
+                       "'starts all-zero' and 'dimensions the driver reports' are decided by the correspondence (alias query compares default buffer, size(), WIDTH/HEIGHT), not by a theorem",
+                       "64-bit usize"])
+
+def check_C14(tier, seed, t0):
+    extra, ntab = color_table_oracle()
+    return pure_check('C14', 'color', ['Properties/C14.v'], tier, seed, t0,
+                      ["theorems are about Pure/Color.v (transcription of src/color.rs); tie = pure correspondence (every finite table, all Rgb565/Rgb555 values, Rgb888 sweeps: step 5 quick / exhaustive thorough)",
+                       "the property's clauses are also evaluated directly on the real crate's finite tables (%d entries) each run" % ntab],
+                      extra_viol=extra)
